@@ -67,6 +67,19 @@ pub struct SiteCase {
     pub site: Site,
     /// coins attached to the probed call
     pub funds: Vec<(String, u128)>,
+    /// what the contract that runs the site already holds when the probed call arrives
+    #[serde(default)]
+    pub prior: Option<Prior>,
+}
+
+/// A balance the calling contract holds before the probed call: sent to its address by a
+/// third party (also possible before the contract exists), or left behind by an earlier,
+/// accepted call of the same site that paid `amount` more than the fee.
+#[derive(Clone, Debug, Serialize, Deserialize, PartialEq, Eq, PartialOrd, Ord)]
+pub struct Prior {
+    pub denom: String,
+    pub amount: u128,
+    pub by_overpayment: bool,
 }
 
 pub type Snap = BTreeMap<(String, String), u128>;
@@ -180,12 +193,43 @@ fn refused_pool_sender(err: &str) -> Option<String> {
     Some(rest[..j].to_string())
 }
 
+type Probe = Box<dyn FnOnce(&mut App) -> Result<AppResponse, String>>;
+/// an earlier call of the same site that pays `surplus` more than it has to
+type Overpay = Box<dyn FnOnce(&mut App, u128) -> Result<AppResponse, String>>;
+
 struct Stage {
     app: App,
     contract: String,
     payer: String,
     dev: Option<String>,
     seller: Option<String>,
+    overpay: Option<Overpay>,
+}
+fn staged(st: Stage, f: impl FnOnce(&mut App) -> Result<AppResponse, String> + 'static) -> (Stage, Probe) {
+    (st, Box::new(f))
+}
+const DONOR: &str = "donor";
+
+/// give the contract of the staged world its prior balance
+fn fund_contract(st: &mut Stage, prior: &Prior) -> Result<(), String> {
+    if prior.amount == 0 {
+        return Ok(());
+    }
+    if prior.by_overpayment {
+        let f = st.overpay.take().ok_or("this site has no earlier over-payment to leave coins behind")?;
+        let had = chain::balance(&st.app, &st.contract, &prior.denom);
+        chain::mint_coins(&mut st.app, &st.payer, prior.amount.saturating_mul(4).max(WELL_OFF), &prior.denom);
+        f(&mut st.app, prior.amount).map_err(|e| format!("the over-paying call was rejected: {}", e))?;
+        let has = chain::balance(&st.app, &st.contract, &prior.denom);
+        if has != had + prior.amount {
+            return Err(format!("an over-payment of {} left {} in the contract", prior.amount, has - had));
+        }
+    } else {
+        chain::mint_coins(&mut st.app, DONOR, prior.amount, &prior.denom);
+        let (to, c) = (Addr::unchecked(st.contract.clone()), vec![coin(prior.amount, prior.denom.clone())]);
+        st.app.send_tokens(Addr::unchecked(DONOR), to, &c).map_err(|e| format!("bank send to the contract: {:#}", e))?;
+    }
+    Ok(())
 }
 
 fn snapshot(app: &App, accounts: &[String], supply0: &BTreeMap<String, u128>) -> Vec<(String, String, u128)> {
@@ -202,7 +246,7 @@ fn snapshot(app: &App, accounts: &[String], supply0: &BTreeMap<String, u128>) ->
 }
 
 /// run the probed call `f` on the staged world and record everything
-fn observe(mut st: Stage, f: impl FnOnce(&mut App) -> Result<AppResponse, String>) -> Outcome {
+fn observe(mut st: Stage, f: Probe) -> Outcome {
     let mut accounts: Vec<String> = vec![
         st.payer.clone(),
         st.contract.clone(),
@@ -275,6 +319,14 @@ fn public_mint_msg(kind: MinterKind, proof: Option<Vec<String>>) -> Value {
 /// Build the world of a case and run its probed call.  Err = the world could not be
 /// staged (a harness problem or a site the tree under test no longer lets us reach).
 pub fn run_case(c: &SiteCase) -> Result<Outcome, String> {
+    let (mut st, probe) = stage_case(c)?;
+    if let Some(p) = &c.prior {
+        fund_contract(&mut st, p)?;
+    }
+    Ok(observe(st, probe))
+}
+
+fn stage_case(c: &SiteCase) -> Result<(Stage, Probe), String> {
     let funds = coins_of(&c.funds);
     match &c.site {
         Site::Create { factory, minter, fee_native, mint_native, fee } => {
@@ -290,9 +342,21 @@ pub fn run_case(c: &SiteCase) -> Result<Outcome, String> {
             let mut req = wf::CreateReq::standard(*factory, sg721, &p.creation_fee);
             req.funds = c.funds.clone();
             req.mint_price = (denom_of(*mint_native).to_string(), 100_000_000);
-            let st = Stage { app, contract: f.to_string(), payer: CREATOR.into(), dev: None, seller: None };
+            // an earlier creation that pays more than the fee: accepted by every factory but the
+            // open-edition one when the fee is native, and the surplus stays in the factory
+            let overpay: Option<Overpay> = if *fee_native && *factory != FactoryKind::OpenEdition {
+                let (k, fa, fee, mut req0) = (*factory, f.clone(), *fee, req.clone());
+                Some(Box::new(move |app: &mut App, surplus: u128| {
+                    req0.funds = vec![(NATIVE.to_string(), fee + surplus)];
+                    let msg = wf::create_msg_json(app, k, CREATOR, &req0);
+                    wf::exec_json(app, CREATOR, &fa, &msg, &coins_of(&req0.funds))
+                }))
+            } else {
+                None
+            };
+            let st = Stage { app, contract: f.to_string(), payer: CREATOR.into(), dev: None, seller: None, overpay };
             let (k, fa) = (*factory, f.clone());
-            Ok(observe(st, move |app| {
+            Ok(staged(st, move |app: &mut App| {
                 let msg = wf::create_msg_json(app, k, CREATOR, &req);
                 wf::exec_json(app, CREATOR, &fa, &msg, &coins_of(&req.funds))
             }))
@@ -304,16 +368,21 @@ pub fn run_case(c: &SiteCase) -> Result<Outcome, String> {
             let who = if *by_admin { wf::CREATOR } else { BUYER };
             rich(&mut app, who, &funds);
             let m = w.minter.clone();
-            let st = Stage { app, contract: m.to_string(), payer: who.into(), dev: None, seller: None };
-            Ok(observe(st, move |app| wf::exec_json(app, who, &m, &json!({"shuffle": {}}), &funds)))
+            // an earlier shuffle that pays more than the fee leaves the surplus in the minter
+            let m0 = m.clone();
+            let overpay: Option<Overpay> = Some(Box::new(move |app: &mut App, surplus: u128| {
+                wf::exec_json(app, who, &m0, &json!({"shuffle": {}}), &[coin(fee + surplus, NATIVE)])
+            }));
+            let st = Stage { app, contract: m.to_string(), payer: who.into(), dev: None, seller: None, overpay };
+            Ok(staged(st, move |app: &mut App| wf::exec_json(app, who, &m, &json!({"shuffle": {}}), &funds)))
         }
         Site::WlCreate { kind, member_limit } => {
             let mut app = chain::new_app();
             let code = app.store_code(wl_code(*kind));
             rich(&mut app, CREATOR, &funds);
             let msg = wl_init_json(*kind, chain::now(&app), *member_limit);
-            let st = Stage { app, contract: "contract0".into(), payer: CREATOR.into(), dev: None, seller: None };
-            Ok(observe(st, move |app| inst(app, code, CREATOR, &msg, &funds, None)))
+            let st = Stage { app, contract: "contract0".into(), payer: CREATOR.into(), dev: None, seller: None, overpay: None };
+            Ok(staged(st, move |app: &mut App| inst(app, code, CREATOR, &msg, &funds, None)))
         }
         Site::WlIncrease { kind, old, new } => {
             let mut app = chain::new_app();
@@ -323,9 +392,9 @@ pub fn run_case(c: &SiteCase) -> Result<Outcome, String> {
             let fee0 = ((*old as u128 + 999) / 1000) * 100_000_000;
             let r = inst(&mut app, code, CREATOR, &msg, &[coin(fee0, NATIVE)], None).map_err(|e| format!("whitelist: {}", e))?;
             let wl = wf::instantiated_addrs(&r).first().cloned().ok_or("no whitelist address")?;
-            let st = Stage { app, contract: wl.to_string(), payer: CREATOR.into(), dev: None, seller: None };
+            let st = Stage { app, contract: wl.to_string(), payer: CREATOR.into(), dev: None, seller: None, overpay: None };
             let new = *new;
-            Ok(observe(st, move |app| wf::exec_json(app, CREATOR, &wl, &json!({"increase_member_limit": new}), &funds)))
+            Ok(staged(st, move |app: &mut App| wf::exec_json(app, CREATOR, &wl, &json!({"increase_member_limit": new}), &funds)))
         }
         Site::WlMerkleCreate { tiered } => {
             let mut app = chain::new_app();
@@ -343,8 +412,8 @@ pub fn run_case(c: &SiteCase) -> Result<Outcome, String> {
                 json!({"merkle_root": root, "merkle_tree_uri": null, "start_time": ts(s), "end_time": ts(e),
                        "mint_price": jc(100, NATIVE), "per_address_limit": 1, "admins": [CREATOR], "admins_mutable": true})
             };
-            let st = Stage { app, contract: "contract0".into(), payer: CREATOR.into(), dev: None, seller: None };
-            Ok(observe(st, move |app| inst(app, code, CREATOR, &msg, &funds, None)))
+            let st = Stage { app, contract: "contract0".into(), payer: CREATOR.into(), dev: None, seller: None, overpay: None };
+            Ok(staged(st, move |app: &mut App| inst(app, code, CREATOR, &msg, &funds, None)))
         }
         Site::EnableUpdatable => {
             // a collection instantiated as sg721-base by a contract, then migrated to
@@ -370,8 +439,8 @@ pub fn run_case(c: &SiteCase) -> Result<Outcome, String> {
             let coll = wf::instantiated_addrs(&r).first().cloned().ok_or("no collection address")?;
             flatten(catch(|| app.migrate_contract(Addr::unchecked(ADMIN), coll.clone(), &Empty {}, upd))).map_err(|e| format!("migrate: {}", e))?;
             rich(&mut app, CREATOR, &funds);
-            let st = Stage { app, contract: coll.to_string(), payer: CREATOR.into(), dev: None, seller: None };
-            Ok(observe(st, move |app| wf::exec_json(app, CREATOR, &coll, &json!({"enable_updatable": {}}), &funds)))
+            let st = Stage { app, contract: coll.to_string(), payer: CREATOR.into(), dev: None, seller: None, overpay: None };
+            Ok(staged(st, move |app: &mut App| wf::exec_json(app, CREATOR, &coll, &json!({"enable_updatable": {}}), &funds)))
         }
         Site::AirdropInit => {
             let mut app = chain::new_app();
@@ -387,8 +456,8 @@ pub fn run_case(c: &SiteCase) -> Result<Outcome, String> {
                 minter_address: Addr::unchecked("contract9"),
                 per_address_limit: 1,
             };
-            let st = Stage { app, contract: "contract0".into(), payer: CREATOR.into(), dev: None, seller: None };
-            Ok(observe(st, move |app| {
+            let st = Stage { app, contract: "contract0".into(), payer: CREATOR.into(), dev: None, seller: None, overpay: None };
+            Ok(staged(st, move |app: &mut App| {
                 match catch(|| app.instantiate_contract(code, Addr::unchecked(CREATOR), &msg, &funds, "sg-eth-airdrop", None)) {
                     Ok(Ok(_)) => Ok(AppResponse::default()),
                     Ok(Err(e)) => Err(format!("{:#}", e)),
@@ -405,8 +474,8 @@ pub fn run_case(c: &SiteCase) -> Result<Outcome, String> {
             let mut app = w.app;
             rich(&mut app, wf::CREATOR, &funds);
             let m = w.minter.clone();
-            let st = Stage { app, contract: m.to_string(), payer: wf::CREATOR.into(), dev: None, seller: None };
-            Ok(observe(st, move |app| {
+            let st = Stage { app, contract: m.to_string(), payer: wf::CREATOR.into(), dev: None, seller: None, overpay: None };
+            Ok(staged(st, move |app: &mut App| {
                 wf::exec_json(app, wf::CREATOR, &m, &json!({"mint": {"token_uri": "ipfs://bafybeiavall5udkxkdtdm4djezoxrmfc6o5fn2ug3ymrlvibvwmwydgrkm/1.jpg"}}), &funds)
             }))
         }
@@ -414,7 +483,7 @@ pub fn run_case(c: &SiteCase) -> Result<Outcome, String> {
     }
 }
 
-fn run_mint(minter: MinterKind, mode: MintMode, native: bool, price: u128, bps: u64, by_creator: bool, funds: Vec<Coin>) -> Result<Outcome, String> {
+fn run_mint(minter: MinterKind, mode: MintMode, native: bool, price: u128, bps: u64, by_creator: bool, funds: Vec<Coin>) -> Result<(Stage, Probe), String> {
     let d = denom_of(native).to_string();
     let dev = if is_oe(minter) { Some(wf::DEV_ADDRESS.to_string()) } else { None };
     match mode {
@@ -440,9 +509,9 @@ fn run_mint(minter: MinterKind, mode: MintMode, native: bool, price: u128, bps: 
             let payer = if airdrop || by_creator { wf::CREATOR } else { BUYER };
             rich(&mut app, payer, &funds);
             let m = w.minter.clone();
-            let st = Stage { app, contract: m.to_string(), payer: payer.into(), dev, seller: Some(wf::CREATOR.into()) };
+            let st = Stage { app, contract: m.to_string(), payer: payer.into(), dev, seller: Some(wf::CREATOR.into()), overpay: None };
             let msg = if airdrop { json!({"mint_to": {"recipient": BUYER}}) } else { public_mint_msg(minter, None) };
-            Ok(observe(st, move |app| wf::exec_json(app, payer, &m, &msg, &funds)))
+            Ok(staged(st, move |app: &mut App| wf::exec_json(app, payer, &m, &msg, &funds)))
         }
         MintMode::Whitelist => {
             if let Some(vi) = vending_variant(minter) {
@@ -479,9 +548,9 @@ fn run_mint(minter: MinterKind, mode: MintMode, native: bool, price: u128, bps: 
                 chain::set_time(&mut app, t0 + 1500 * SEC);
                 rich(&mut app, BUYER, &funds);
                 let m = w.minter.clone();
-                let st = Stage { app, contract: m.to_string(), payer: BUYER.into(), dev, seller: Some(CREATOR.into()) };
+                let st = Stage { app, contract: m.to_string(), payer: BUYER.into(), dev, seller: Some(CREATOR.into()), overpay: None };
                 let msg = public_mint_msg(minter, proof);
-                Ok(observe(st, move |app| wf::exec_json(app, BUYER, &m, &msg, &funds)))
+                Ok(staged(st, move |app: &mut App| wf::exec_json(app, BUYER, &m, &msg, &funds)))
             } else if let Some(oi) = oe_variant(minter) {
                 let v = OE_VARIANTS[oi];
                 let mut cfg = OeCfg::basic(oi);
@@ -509,9 +578,9 @@ fn run_mint(minter: MinterKind, mode: MintMode, native: bool, price: u128, bps: 
                 chain::set_time(&mut app, t0 + 1500 * SEC);
                 rich(&mut app, BUYER, &funds);
                 let m = w.minter.clone();
-                let st = Stage { app, contract: m.to_string(), payer: BUYER.into(), dev: Some(devaddr), seller: Some(CREATOR.into()) };
+                let st = Stage { app, contract: m.to_string(), payer: BUYER.into(), dev: Some(devaddr), seller: Some(CREATOR.into()), overpay: None };
                 let msg = public_mint_msg(minter, proof);
-                Ok(observe(st, move |app| wf::exec_json(app, BUYER, &m, &msg, &funds)))
+                Ok(staged(st, move |app: &mut App| wf::exec_json(app, BUYER, &m, &msg, &funds)))
             } else {
                 Err(format!("{} has no whitelist mint", minter.name()))
             }
@@ -729,6 +798,25 @@ pub fn monitor(c: &SiteCase, o: &Outcome) -> Vec<(String, String)> {
     if pl > 0 && o.pool_sender.as_deref() != Some(o.contract.as_str()) {
         bad!("pool-sender", format!("pool funded on behalf of {:?}, the calling contract is {}", o.pool_sender, o.contract));
     }
+    // the fee is disposed of out of the payment that came with the call: whatever the
+    // contract held before is still there afterwards
+    for d in [NATIVE, IBC] {
+        if o.delta(&o.contract, d) < 0 {
+            bad!(
+                "contract-balance-used",
+                format!(
+                    "the contract {} held {} {} before the call and {} after it: {} of its own balance went into a fee of {} paid with {:?}",
+                    o.contract,
+                    Outcome::get(&o.before, &o.contract, d),
+                    d,
+                    Outcome::get(&o.after, &o.contract, d),
+                    -o.delta(&o.contract, d),
+                    e.fee,
+                    c.funds
+                )
+            );
+        }
+    }
     // the payer paid what was attached (a seller who pays an airdrop also receives the remainder)
     if o.seller.as_deref() != Some(o.payer.as_str()) && o.delta(&o.payer, fd) != -(p as i128) {
         bad!("payer", format!("payer's {} changed by {}, the payment was {}", fd, o.delta(&o.payer, fd), p));
@@ -837,7 +925,7 @@ fn payments(req: u128, denom: &str, all: bool) -> Vec<Vec<(String, u128)>> {
 
 pub fn gen_cases(thorough: bool, rng: &mut Rng) -> Vec<SiteCase> {
     let mut out: Vec<SiteCase> = vec![];
-    let mut push = |site: Site, funds: Vec<(String, u128)>| out.push(SiteCase { site, funds });
+    let mut push = |site: Site, funds: Vec<(String, u128)>| out.push(SiteCase { site, funds, prior: None });
 
     // ---- creation fee: four factories x fee denom x mint denom x fee values x payments
     let mut fees: Vec<u128> = vec![1, 2, 3, 4, 5, 999_999_999, 5_000_000_000, 1_000_000_000_000_000_000_000_000_000_001];
@@ -967,6 +1055,78 @@ pub fn gen_cases(thorough: bool, rng: &mut Rng) -> Vec<SiteCase> {
             }
         }
     }
+
+    // ---- the calling contract already holds a balance: every site shape at one
+    // representative fee, the contract funded by a bank send (1, req-1, req, 10*req of the
+    // fee denom; 1 and 10*req of the other denom) and, where the site takes over-payments,
+    // by an earlier over-paying call (1, req-1); then all the payments around the requirement
+    let mut shapes: Vec<(Site, u128, bool, bool)> = vec![]; // (site, required payment, in ustars?, over-payable?)
+    for (factory, minter) in &creators {
+        for fee_native in [true, false] {
+            let mint_natives: &[bool] = if *factory == FactoryKind::Vending && *minter == MinterKind::Vending { &[true, false] } else { &[true] };
+            for mint_native in mint_natives {
+                let fee = 5_000_000_000u128;
+                shapes.push((
+                    Site::Create { factory: *factory, minter: *minter, fee_native, mint_native: *mint_native, fee },
+                    fee,
+                    fee_native,
+                    fee_native && *factory != FactoryKind::OpenEdition,
+                ));
+            }
+        }
+    }
+    for m in MinterKind::ALL.iter().filter(|m| matches!(m.factory(), FactoryKind::Vending | FactoryKind::TokenMerge)) {
+        shapes.push((Site::Shuffle { minter: *m, fee: 500_000_000, by_admin: false }, 500_000_000, true, true));
+    }
+    for kind in 0..4u8 {
+        shapes.push((Site::WlCreate { kind, member_limit: 1000 }, 100_000_000, true, false));
+        shapes.push((Site::WlIncrease { kind, old: 1000, new: 2000 }, 100_000_000, true, false));
+    }
+    for tiered in [false, true] {
+        shapes.push((Site::WlMerkleCreate { tiered }, 1_000_000_000, true, false));
+    }
+    shapes.push((Site::EnableUpdatable, 1_500_000_000, true, false));
+    shapes.push((Site::AirdropInit, 100_000_000, true, false));
+    shapes.push((Site::BaseMint { price: 100_000_000, bps: 1000 }, 10_000_000, true, false));
+    for m in MinterKind::ALL.iter().filter(|m| **m != MinterKind::Base) {
+        for mode in [MintMode::Public, MintMode::Airdrop, MintMode::Whitelist] {
+            if *m == MinterKind::TokenMerge && mode != MintMode::Airdrop {
+                continue;
+            }
+            for native in [true, false] {
+                if !native && !(thorough || (mode == MintMode::Public && !is_featured(*m))) {
+                    continue;
+                }
+                shapes.push((Site::Mint { minter: *m, mode, native, price: 100_000_000, bps: 1000, by_creator: false }, 100_000_000, native, false));
+            }
+        }
+    }
+    for (site, req, native, overpayable) in shapes {
+        let (fd, od) = (denom_of(native), denom_of(!native));
+        let mut priors: Vec<Prior> = vec![];
+        for a in [1, req - 1, req, 10 * req] {
+            priors.push(Prior { denom: fd.to_string(), amount: a, by_overpayment: false });
+        }
+        for a in [1, 10 * req] {
+            priors.push(Prior { denom: od.to_string(), amount: a, by_overpayment: false });
+        }
+        if overpayable {
+            for a in [1, req - 1] {
+                priors.push(Prior { denom: fd.to_string(), amount: a, by_overpayment: true });
+            }
+        }
+        for prior in priors {
+            let all = prior.denom == fd || thorough;
+            let mut ps = payments(req, fd, true);
+            if !all {
+                // the other denom held: the under-payment, the exact payment and the payment in that denom
+                ps = vec![ps[1].clone(), ps[0].clone(), ps[4].clone()];
+            }
+            for f in ps {
+                out.push(SiteCase { site: site.clone(), funds: f, prior: Some(prior.clone()) });
+            }
+        }
+    }
     out
 }
 
@@ -984,8 +1144,8 @@ pub fn probe_shuffle_fee_in_ibc_denom() -> String {
         let mut app = w.app;
         rich(&mut app, BUYER, &funds);
         let m = w.minter.clone();
-        let st = Stage { app, contract: m.to_string(), payer: BUYER.into(), dev: None, seller: None };
-        let o = observe(st, move |app| wf::exec_json(app, BUYER, &m, &json!({"shuffle": {}}), &funds));
+        let st = Stage { app, contract: m.to_string(), payer: BUYER.into(), dev: None, seller: None, overpay: None };
+        let o = observe(st, Box::new(move |app: &mut App| wf::exec_json(app, BUYER, &m, &json!({"shuffle": {}}), &funds)));
         lines.push(format!(
             "paying 500 {}: {} (burned {} ustars, pool +{} ustars, launchpad DAO +{} {})",
             pay_denom,
